@@ -136,6 +136,29 @@ def override_rules(fb):
                         types = [const_val(fb, y["def"]) for y in hirq.walk(x["then"]) if y.get("k") == "path" and y.get("dk") == "Const"]
                         rules.append((prefix, [t for t in types if t], x["ln"]))
             fallback = any(c.endswith("get_backup_context_types") for c in hirq.called_defs(h["body"]))
+            if not rules:
+                # table form: an array of (prefix literal, content-type constant) pairs scanned in order with starts_with
+                lets = lets_of(h)
+
+                def types_of(n, depth=0):
+                    n = hirq.strip(n)
+                    if n.get("k") == "path" and n.get("dk") == "Const":
+                        v = const_val(fb, n["def"])
+                        return [v] if v else []
+                    if n.get("k") == "path" and n.get("lid") in lets and depth < 3:
+                        return [t for y in hirq.walk(lets[n["lid"]]) if y.get("k") == "path" and y.get("dk") == "Const" for t in [const_val(fb, y["def"])] if t]
+                    return []
+
+                uses_prefix_test = any(c.get("k") == "mcall" and c.get("name") == "starts_with" for c in hirq.calls(h["body"]))
+                for x in hirq.walk(h["body"]):
+                    if x.get("k") == "array" and uses_prefix_test:
+                        rows = []
+                        for e in x.get("es", []):
+                            e = hirq.strip(e)
+                            if e.get("k") == "tup" and len(e.get("es", [])) == 2 and isinstance(hirq.lit_value(e["es"][0]), str):
+                                rows.append((hirq.lit_value(e["es"][0]), types_of(e["es"][1]), e.get("ln")))
+                        if len(rows) >= 5 and all(r_[0].startswith("/") for r_ in rows):
+                            rules = rows
             return d, rules, fallback
     return None, [], False
 
@@ -718,8 +741,9 @@ def rule_quote_inverse(chk, fb, rid="C02.j.inv"):
                 if len(t["args"]) > 1 and t["args"][1].get("i", t["args"][1].get("c")) in (1, True, "true"):
                     dbl_fns.add(d)
     for d, b in fb.mir.items():
-        if any(t.get("fn") in dbl_fns for _, t in fb.calls_in(b)) and b.get("self_ty") and not b["self_ty"].endswith("::Address"):
-            doublers.add(b["self_ty"])
+        owner = b.get("self_ty") or fb.mir.get(d.split("::{closure")[0], {}).get("self_ty")  # closures belong to their method
+        if any(t.get("fn") in dbl_fns or any(a.get("cfn") in dbl_fns for a in t.get("args", [])) for _, t in fb.calls_in(b)) and owner and not owner.endswith("::Address"):
+            doublers.add(owner)
     n = 0
     for d, b in sorted(fb.mir.items()):
         if b.get("self_ty") not in doublers:
